@@ -218,7 +218,7 @@ type BExpr struct {
 
 // Effect is a store effect of a block.
 type Effect struct {
-	Op  string // sset sinc smut gset ginc gmut
+	Op  string // sset sinc smut sdel gset ginc gmut gdel
 	Key string
 	V   *VExpr // sset gset
 	N   int64  // smut gmut
@@ -588,7 +588,7 @@ func (p *printer) block(b *Block) {
 		switch e.Op {
 		case "sset", "gset":
 			p.vexpr(e.V)
-		case "sinc", "ginc":
+		case "sinc", "ginc", "sdel", "gdel":
 		case "smut", "gmut":
 			p.i(e.N)
 		default:
@@ -1028,7 +1028,7 @@ func (r *reader) block() *Block {
 		switch e.Op {
 		case "sset", "gset":
 			e.V = r.vexpr(0)
-		case "sinc", "ginc":
+		case "sinc", "ginc", "sdel", "gdel":
 		case "smut", "gmut":
 			e.N = r.i()
 		default:
